@@ -468,7 +468,9 @@ impl Manifest {
         if allow_rollover {
             let on_disk_bytes = self.poison(metadata(output))?.len();
             let in_memory_bytes = self.size();
-            if on_disk_bytes > self.options.log_rollover_ratio * in_memory_bytes && !was_empty {
+            if on_disk_bytes > self.options.log_rollover_ratio.saturating_mul(in_memory_bytes)
+                && !was_empty
+            {
                 self.rollover()?;
             }
         }
